@@ -23,7 +23,7 @@ THEOREMS = [NS + t for t in (
     'C19_down_up_sign', 'C19_fix_multiples', 'C19_trunc_is_rounddown', 'C19_int_floor', 'C19_mod_identity',
     'C19_mod_sign', 'C19_floor_math_adjacent', 'C19_ceiling_math_adjacent', 'C19_precise_eq_math',
     'C19_floor_adjacent', 'C19_ceiling_adjacent', 'C19_significance_fix_multiples', 'C19_even', 'C19_odd',
-    'C19_digits_truncated', 'C19_call', 'C19_defaults', 'C19_idempotent', 'C19_odd_symmetry')]
+    'C19_digits_truncated', 'C19_call', 'C19_defaults', 'C19_idempotent', 'C19_odd_symmetry', 'C19_rounddown_mono', 'C19_round_mono')]
 DESIGN_REF = 'DESIGN.md §7 C19'
 RULE = ('each function of the family called through its excel_math_func wrapper on scalars. Numbers are decimals '
         'k/10^j handed to pycel as the float whose shortest repr is that decimal. Deterministic core: every tie, '
